@@ -233,7 +233,15 @@ func (s *Spec) Lox() string {
 		writeMode(s.Modes[0], "")
 		named()
 	}
-	return b.String()
+	text := b.String()
+	// style bit 2: CRLF line ends; bit 4: a tab instead of the two blanks that indent a mode's rules
+	if s.Style&4 != 0 {
+		text = strings.ReplaceAll(text, "\n  ", "\n\t")
+	}
+	if s.Style&2 != 0 {
+		text = strings.ReplaceAll(text, "\n", "\r\n")
+	}
+	return text
 }
 
 // TokenNames returns the terminal names in lox's numbering order for this
